@@ -132,6 +132,23 @@ fn producers(sh: &util::Shard, bd: &[f64], gr: &[f64]) -> Report {
         }
         rep.states += 1;
     }
+    // digit strings around the overflow threshold of every radix parser (2^1024 has 309
+    // decimal, 257 hexadecimal, 342 octal digits)
+    for (f, digit, lens) in [("parseInt", '9', 300usize..=320), ("parseInt", '1', 300..=320), ("parseHex", 'f', 250..=300), ("parseHex", '1', 250..=300), ("parseOctal", '7', 335..=395), ("parseOctal", '1', 335..=395)] {
+        for n in lens {
+            if !mine() {
+                continue;
+            }
+            let digits: String = std::iter::repeat_n(digit, n).collect();
+            check_producer(&mut p, &format!("std.{f}"), &format!("std.{f}(\"{digits}\")"), &mut rep);
+            if f == "parseInt" {
+                check_producer(&mut p, "std.parseInt", &format!("std.parseInt(\"-{digits}\")"), &mut rep);
+                check_producer(&mut p, "std.parseJson", &format!("std.parseJson(\"{digits}\")"), &mut rep);
+            }
+            // (std.parseYaml reads an overflowing 0x / 0o scalar as a string: not a number at all)
+            rep.states += 1;
+        }
+    }
     // arrays of length <= 3 over a 12-double boundary set
     let set = [0.0, -0.0, 1.0, -1.0, f64::MAX, -f64::MAX, f64::MAX / 2.0, 1e308, -1e308, 5e-324, 9007199254740992.0, 0.1];
     for len in 0..=3 {
